@@ -1,6 +1,7 @@
 import XmppModel.Prelude.Hex
 import XmppModel.Model.Ibb
 import XmppModel.Model.IbbReader
+import XmppModel.Model.IbbSend
 /-! Driver module for C15.
 
     C15 recv <maxbuf> <ops>    ops `,`-joined:  d:<known>:<seq>:<payloadhex>  data packet
@@ -64,6 +65,17 @@ def readerRun : IbbReader.St → List String → Nat → Except String IbbReader
     | some s' => readerRun s' ts (k + 1)
     | none => .error s!"bad@{k}:{t}"
 
+/-- `C15 pack <bs> <ops>`: the executable packetiser.  ops `,`-joined: w:<hex> Write, f Flush,
+C Close.  answer: the data stanzas `<seq>:1:<payloadhex>` `,`-joined (`-` if none) -/
+def parseSOp (t : String) : Option SOp :=
+  match t.splitOn ":" with
+  | ["w", h] => (hexDecode h).map SOp.write
+  | ["f"] => some .flush
+  | ["C"] => some .close
+  | _ => none
+
+def showPacket (p : Packet) : String := s!"{p.seq}:{showBool p.known}:{hexEncode p.payload}"
+
 def handle (args : List String) : Option String :=
   match args with
   | ["recv", maxbuf, ops] => do
@@ -74,6 +86,10 @@ def handle (args : List String) : Option String :=
     match readerRun IbbReader.init (splitList acts) 0 with
     | .ok s => some s!"delivered={s.delivered} eof={showBool s.eof} reading={showBool (s.rpc != .idle)}"
     | .error e => some e
+  | ["pack", bs, ops] => do
+    let b ← bs.toNat?
+    let os ← mapM? parseSOp (splitList ops)
+    pure (joinList ((mkPackets 0 (srun (sinit b) os).chunks).map showPacket))
   | ["open", acc] => do
     let a ← parseBool acc
     pure (if (openResult a).isSome then "conn" else "err")
